@@ -267,19 +267,20 @@ def integralBlock (v : Variant) (s : Shape) (ternary incdec : Bool) (vt1 : VT) (
   | .fixA => integralBlockFix false s ternary incdec vt1 vt2
   | .fixAB => integralBlockFix true s ternary incdec vt1 vt2
 
+/-- the type a shift takes from its left operand: `vt1->type < BOOL || vt1->type >= INT` → `*vt1` (types below BOOL
+    are not in the model), else "Integer promotion": `signed int` as pinned, `integerPromotion` with the patch -/
+def shiftResult (v : Variant) (s : Shape) (vt1 : VT) : VT :=
+  if VType.int.rank ≤ vt1.type.rank then vt1
+  else match v with
+    | .base => ⟨.int, .signed⟩
+    | _ => integerPromotion s vt1
+
 /-- `a op b` with both operands typed, by operator class (`none` = the operator token gets no ValueType).
     `cpp` only matters for shifts (`!parent->isCpp() || (vt2 && vt2->isIntegral())`). -/
 def convCls (v : Variant) (s : Shape) (cpp : Bool) (c : OpClass) (vt1 vt2 : VT) : Option VT :=
   match c with
   | .cmp | .logical => some ⟨.bool, .unknown⟩        -- setValueTypeInTokenList, before the operands are looked at
-  | .shift =>
-    if !cpp || vt2.isIntegral then
-      -- `vt1->type < BOOL || vt1->type >= INT` (types below BOOL are not in the model)
-      if VType.int.rank ≤ vt1.type.rank then some vt1
-      else match v with
-        | .base => some ⟨.int, .signed⟩
-        | _ => some (integerPromotion s vt1)
-    else none
+  | .shift => if !cpp || vt2.isIntegral then some (shiftResult v s vt1) else none
   | .assign => some vt1
   | .arith =>
     match floatRanks vt1 (some vt2) with
